@@ -449,6 +449,12 @@ package anthropic
 //@   property C14
 //@   safety
 //@   requires t != nil && t.logger != nil && t.inspector != nil && r != nil
+// a body above the translator's limit, an undecodable or an invalid request is refused; nothing else is
+//@   ensures len(bodyBytes) > t.maxMessageSize ==> res1 != nil
+//@   at return 1 assert len(bodyBytes) > t.maxMessageSize
+//@   at return 2 assert err != nil
+//@   at return 3 assert err != nil
+//@   ensures res1 == nil ==> res0.TargetPath == "/v1/messages" && res0.ModelName != ""
 //@   refines translator.PassthroughCapable.PreparePassthrough
 //@   ensures res1 == nil ==> res0 != nil && sameSlice(res0.Body, bodyBytes) && res0.TargetPath == "/v1/messages"
 //@   ensures res1 != nil ==> res0 == nil
